@@ -468,11 +468,14 @@ func (s *schedSUT) apply(f []string) (out string) {
 		}
 		return s.out(s.stepThread(t))
 	case f[0] == "end" && len(f) == 1:
+		// (counted on the never-reset counter: a delete goroutine still in flight finishes here, and its
+		// report line resets s.unlinks)
+		before := s.totalUnlinks.Load() - int64(s.unlinks)
 		s.finishDelete()
 		s.noteEntryChanges(true)
 		s.finishAll()
 		final := showIndex(s.idx)
-		u := s.unlinks
+		u := int(s.totalUnlinks.Load() - before)
 		lin := s.linearizable(final, nil) // (the fresh indexes of the search pass the gate too)
 		s.unlinks = 0
 		return fmt.Sprintf("lin=%s lost=%d u=%d | %s", wire.B(lin), s.lost, u, final)
